@@ -23,7 +23,7 @@ type Mutex struct {
 
 func (m *Mutex) Lock() {
 	if rt.CurMode == rt.Free {
-		if h := rt.FreeLockHook; h != nil {
+		if h := rt.FreeLockHook(); h != nil {
 			h(m)
 		}
 		m.real.Lock()
